@@ -300,4 +300,13 @@ def run(repo, tier):
     lcs = LR.lazy_classes(repo, only=set(CATS))
     LR.run_L1(repo, res, PROP, lcs)
     as_scalar_rules(repo, res)
+    from .common import apply_specs
+    apply_specs(repo, res, [
+        ('photutils.aperture.stats.ApertureStats.__getitem__', 'test', "newcls.isscalar and key.startswith('_') and key != '_pixel_aperture'",
+         'cached private values of a scalar child stay length-1 iterables (tuples included), except the pixel aperture'),
+        ('photutils.segmentation.catalog.SourceCatalog.segment_area', 'nret', '1',
+         'one exit: no shortcut through the segmentation image (its areas are in label order, the catalog may be reordered)'),
+        ('photutils.segmentation.catalog.SourceCatalog.to_table', 'test', 'self.isscalar',
+         'every column value of a scalar catalog is wrapped in a 1-tuple (also array-valued ones such as centroid)'),
+    ])
     return res
